@@ -172,7 +172,7 @@ func mpdListTerm(fsys fs.FS, ls []layout) string {
 	for _, l := range ls {
 		for _, m := range l.MPDs {
 			obs := "MBad"
-			if m.Kind == "ok" || m.Kind == "no_type" {
+			if m.Kind == "ok" || m.Kind == "no_type" || m.Kind == "no_duration" || m.Kind == "no_type_no_duration" {
 				var sets []string
 				for _, as := range m.Sets {
 					var reps []string
@@ -183,8 +183,11 @@ func mpdListTerm(fsys fs.FS, ls []layout) string {
 						lib.Cbool(!as.NoTemplate), lib.CoqString(as.ContentType), strings.Join(reps, ";\n    ")))
 				}
 				ctor := "MOk"
-				if m.Kind == "no_type" {
+				switch m.Kind {
+				case "no_type":
 					ctor = "MNoType"
+				case "no_duration", "no_type_no_duration":
+					ctor = "MNoDur"
 				}
 				obs = "(" + ctor + " [" + strings.Join(sets, ";\n   ") + "])"
 			}
